@@ -91,24 +91,40 @@ Definition dec_hdr (s : sexp) : option (list N * option (brule * list N)) :=
   | _ => None
   end.
 
+(* known class F-C20a (class id 2001): the deferred JSR content fill decodes as UTF-8 whatever
+   charset the response's content-type header names; input class = that route and a header
+   whose label does not resolve to UTF-8 *)
+Definition c20_jsr_class (hdr : option (list N)) (other : option (brule * list N)) (bytes : list N) : bool :=
+  match for_label (charset_label hdr false bytes) other with
+  | Some EUtf8 => false
+  | _ => true
+  end.
+
+Definition C20_CLASSTAG : N := 555555.
+
 (* element: header index (0 = no content-type header, i+1 = i-th table entry), file: scheme,
-   media class, route (ignored by the model), implementation's observation *)
+   media class, route (0 parse_module, 1 graph build, 2 JSR deferred content fill),
+   implementation's observation *)
 Definition run_c20_elem (bytes : list N) (tbl : list (list N * option (brule * list N))) (e : sexp) : sexp :=
   match e with
-  | L [A hidx; A is_file; A m; A _route; impl] =>
+  | L [A hidx; A is_file; A m; A route; impl] =>
       match (if hidx =? 0 then Some (None, None)
              else match nth_error tbl (N.to_nat (hidx - 1)) with
                   | Some (c, o) => Some (Some c, o)
                   | None => None
                   end), dec_obs impl with
       | Some (hdr', other'), Some impl' =>
-          let isf := negb (is_file =? 0) in
+          let jsr := route =? 2 in
+          let isf := negb jsr && negb (is_file =? 0) in
           let mc := dec_mclass m in
-          let r := parse_module_model mc hdr' isf other' bytes in
+          let r := if jsr then jsr_fill_model mc bytes else parse_module_model mc hdr' isf other' bytes in
           let o := obs_of r in
-          L [of_option of_atoms (header_charset hdr'); A (ob_tag o); A (kind_code r); of_atoms (ob_text o);
-             of_option of_atoms (ob_orig o); A (ob_size o); A (ob_ssize o);
-             judge (c20_holdsb mc hdr' isf other' bytes impl')]
+          (* the property is judged against the header the loader supplied, on every route *)
+          let holds := c20_holdsb mc hdr' isf other' bytes impl' in
+          L ([of_option of_atoms (header_charset hdr'); A (ob_tag o); A (kind_code r); of_atoms (ob_text o);
+              of_option of_atoms (ob_orig o); A (ob_size o); A (ob_ssize o); judge holds]
+             ++ (if holds then [] else
+                   if jsr && c20_jsr_class hdr' other' bytes then [of_atoms [C20_CLASSTAG; 2001]] else []))
       | _, _ => decode_error
       end
   | _ => decode_error
